@@ -25,6 +25,8 @@ inductive Expect where
   | glomError (cls : String)      -- exit 1, stdout names the class
   | targetUsage                   -- usage error
   | noResult                      -- anything but exit 0 (malformed spec text)
+  | unserialisable (cls : String) -- the result is nothing json.dumps can print: the exception of json.dumps leaves `main`
+  | libOther (cls : String)       -- the library call ended in an exception that is no GlomError (outside the statement)
   | silent
   deriving DecidableEq, Repr
 
@@ -47,15 +49,35 @@ def refSpecText (X : Ext T S R) (a : Argv) : Option String :=
   | none, some p => nonEmpty (X.readFile p)
   | _, _ => none
 
+/-- where the spec comes from -/
+inductive SpecSrc where
+  | text (st : String)      -- the argument, or the content of --spec-file: the text AS IT IS (a final newline included)
+  | absent                  -- no spec argument, no spec file, or an empty text: the identity spec
+  | unreadable              -- --spec-file cannot be read
+  | both                    -- an argument AND a file
+  deriving DecidableEq, Repr
+
+def refSpecSrc (X : Ext T S R) (a : Argv) : SpecSrc :=
+  match nonEmpty (posTexts a).1, nonEmpty a.specFile with
+  | some _, some _ => .both
+  | some s, none => .text s
+  | none, some p =>
+    match X.readFile p with
+    | none => .unreadable
+    | some t => if t.isEmpty then .absent else .text t
+  | none, none => .absent
+
 inductive TargetSrc where
   | text (t : String)
   | unreadable
-  | unspecified
+  | absent                  -- no target argument, no target file, standard input a terminal: the empty dict
+  | unspecified             -- an argument AND a file
   deriving DecidableEq, Repr
 
-/-- standard input as the target: its text, unless it cannot be read (bytes that are no text) -/
+/-- standard input as the target: its text, unless it cannot be read (bytes that are no text, a
+    closed stream, no stream at all) -/
 def refStdin (w : World) : TargetSrc :=
-  if w.stdinErr.isSome then .unreadable else .text w.stdin
+  if w.readErr.isSome then .unreadable else .text w.stdin
 
 def refTargetText (X : Ext T S R) (a : Argv) (w : World) : TargetSrc :=
   match nonEmpty (posTexts a).2, nonEmpty a.targetFile with
@@ -65,7 +87,7 @@ def refTargetText (X : Ext T S R) (a : Argv) (w : World) : TargetSrc :=
     else match X.readFile p with
       | some t => .text t
       | none => .unreadable
-  | none, none => if w.stdinTty then .unspecified else refStdin w
+  | none, none => if w.isatty then .absent else refStdin w
   | some _, some _ => .unspecified
 
 /-- the spec a text denotes in the default format: a Python literal when it starts like one,
@@ -79,33 +101,62 @@ def refRender (X : Ext T S R) (r : R) (indent : Int) (scalar : Bool) : Option St
     | .ok s => some (s ++ "\n")
     | .error _ => none
 
+/-- the class json.dumps raises on a result it cannot print (a date, a set, bytes, keys of mixed
+    types under sort_keys …) -/
+def refDumpsErr (X : Ext T S R) (r : R) (indent : Int) : String :=
+  match X.dumps r (if indent == 0 then none else some indent) with
+  | .ok _ => ""
+  | .error c => c
+
+/-- the literal spec of the statement: the two literal formats (`python`, the default, and `json`) -/
+def refLiteralSpec (X : Ext T S R) (fmt st : String) : Option (Except String S) :=
+  if fmt == "python" then some (refSpecOf X st)
+  else if fmt == "json" then some (X.parse "json" st)
+  else none          -- python-full (not a literal) or an undocumented name: outside the statement
+
+/-- what the statement says about the run once spec and target are there -/
+def expectRun (X : Ext T S R) (a : Argv) (target : T) (spec : S) : Expect :=
+  match X.glom target spec with
+  | .glomError cls _ => .glomError cls
+  | .other c => .libOther c
+  | .ok r =>
+    match refRender X r (a.indent.getD 2) a.scalar with
+    | some s => .result s
+    | none => .unserialisable (refDumpsErr X r (a.indent.getD 2))
+
+/-- the spec the statement speaks about: `none` = it is silent (argument AND file, unreadable spec
+    file, `python-full`, an undocumented format name); a text the literal parser rejects; a spec -/
+def expectSpec (X : Ext T S R) (a : Argv) : Option (Except String S) :=
+  match refSpecSrc X a with
+  | .both | .unreadable => none                      -- a usage error (`refMain`), the statement is silent
+  | .absent => some (.ok X.emptySpec)                -- no spec: the identity (`glom` alone prints `{}`)
+  | .text st => refLiteralSpec X (a.specFormat.getD "python") st
+
+/-- a target text in the format the user names.  READING (test_cli_blank): an EMPTY target text is
+    "no target", the empty dict — not a malformed document -/
+def expectText (X : Ext T S R) (a : Argv) (spec : S) (tt : String) : Expect :=
+  if tt.isEmpty then expectRun X a X.emptyTarget spec else
+  match refLoaderKind (a.targetFormat.getD "json") with
+  | none => .silent                                  -- an undocumented target format: a usage error, the statement is silent
+  | some k =>
+    match X.load k tt with
+    | .error _ => .targetUsage
+    | .ok target => expectRun X a target spec
+
+def expectTarget (X : Ext T S R) (a : Argv) (w : World) (spec : S) : Expect :=
+  match refTargetText X a w with
+  | .unspecified => .silent                          -- argument AND file: a usage error, the statement is silent
+  | .unreadable => .targetUsage
+  | .absent => expectRun X a X.emptyTarget spec      -- no target at all: the empty dict
+  | .text tt => expectText X a spec tt
+
 def expect (X : Ext T S R) (a : Argv) (w : World) : Expect :=
-  -- default spec format only: literal specs; --debug / --inspect print more than the result
-  if !(a.specFormat == none || a.specFormat == some "python") || a.debug || a.inspect then .silent else
-  match refSpecText X a with
+  -- --debug / --inspect print more than the result: outside the statement
+  if a.debug || a.inspect then .silent else
+  match expectSpec X a with
   | none => .silent
-  | some st =>
-    match refSpecOf X st with
-    | .error _ => .noResult
-    | .ok spec =>
-      match refTargetText X a w with
-      | .unspecified => .silent
-      | .unreadable => .targetUsage
-      | .text tt =>
-        if tt.isEmpty then .silent else
-        match refLoaderKind (a.targetFormat.getD "json") with
-        | none => .silent
-        | some k =>
-          match X.load k tt with
-          | .error _ => .targetUsage
-          | .ok target =>
-            match X.glom target spec with
-            | .glomError cls _ => .glomError cls
-            | .other _ => .silent
-            | .ok r =>
-              match refRender X r (a.indent.getD 2) a.scalar with
-              | some s => .result s
-              | none => .silent
+  | some (.error _) => .noResult
+  | some (.ok spec) => expectTarget X a w spec
 
 structure Obs where
   outcome : Outcome
@@ -131,6 +182,9 @@ def checkExpect (ex : Expect) (hostile : Bool) (obs : Obs) : Bool :=
        | _ => false)
    | .targetUsage => (match obs.outcome with | .usage _ => true | _ => false)
    | .noResult => !isExit0 obs.outcome
+   -- READING: what json.dumps cannot print is not printed — its exception (TypeError …) ends the command
+   | .unserialisable c => obs.outcome == .exc c
+   | .libOther _ => true
    | .silent => true)
 
 def checkC19 (X : Ext T S R) (a : Argv) (w : World) (hostile : Bool) (obs : Obs) : Bool :=
@@ -181,11 +235,11 @@ def Request.argv (q : Request) : Argv :=
     inspect := q.inspect }
 
 /-- standard input carries the target when it is the chosen channel, anything otherwise -/
-def Request.world (q : Request) (junk : String) (tty : Bool) (stdinOpen : Bool := true) : World :=
+def Request.world (q : Request) (junk : String) (tty : Bool) : World :=
   match q.tv with
-  | .dashArg | .dashFile => ⟨q.targetText, tty, none, stdinOpen⟩
-  | .piped => ⟨q.targetText, false, none, stdinOpen⟩
-  | _ => ⟨junk, tty, none, stdinOpen⟩
+  | .dashArg | .dashFile => ⟨q.targetText, tty, none, .open⟩
+  | .piped => ⟨q.targetText, false, none, .open⟩
+  | _ => ⟨junk, tty, none, .open⟩
 
 /-- the files hold the texts; file names are non-empty and not `-` (decidable form) -/
 def Request.filesOkB (q : Request) (X : Ext T S R) : Bool :=
@@ -243,9 +297,17 @@ def readCatchWF (names : List String) : Bool :=
   let top := names.contains "Exception" || names.contains "BaseException"
   (names.contains "OSError" || top) && (names.contains "UnicodeError" || names.contains "ValueError" || top)
 
+/-- reading standard input fails with an OSError, a ValueError (undecodable bytes: UnicodeError;
+    a CLOSED stream: `ValueError: I/O operation on closed file`) or an AttributeError (`sys.stdin
+    is None`): the handler names all three, each by itself or by a class above it -/
+def stdinCatchWF (names : List String) : Bool :=
+  let top := names.contains "Exception" || names.contains "BaseException"
+  (names.contains "OSError" || top) && (names.contains "ValueError" || top) &&
+  (names.contains "AttributeError" || top)
+
 def WF (F : Facts) : Bool :=
   catchWF F.targetLoaders F.loadCatch F.loaderRaises &&
-  readCatchWF F.specReadCatch && readCatchWF F.targetReadCatch && readCatchWF F.stdinReadCatch &&
+  readCatchWF F.specReadCatch && readCatchWF F.targetReadCatch && stdinCatchWF F.stdinReadCatch &&
   F.specBranches == [("python", "python-literal"), ("json", "json"), ("python-full", "exec")] &&
   F.reprBranches == ["python"] &&
   F.firstChars == literalStart &&
@@ -280,7 +342,8 @@ def probeWF (raises : List (String × String × List String))
     ((raises.filter (·.1 == k)).map (·.2.1)).eraseDups.length ≥ 2) &&
   raises.all (fun r => r.2.2.head? == some r.2.1 && r.2.2.contains "Exception") &&
   ["spec-file", "target-file", "stdin"].all (fun k => readSites.any (·.1 == k)) &&
-  readSites.all (fun s => ["spec-file", "target-file", "stdin"].contains s.1 && readCatchWF s.2.2)
+  readSites.all (fun s => ["spec-file", "target-file", "stdin"].contains s.1 &&
+    (if s.1 == "stdin" then stdinCatchWF s.2.2 else readCatchWF s.2.2))
 
 /-- **What is read is what is loaded**: between the read of a text (standard input, the target
     file, the spec file, the positional arguments) and the loader / parser that receives it
